@@ -3,7 +3,7 @@
    iterators).  An op names pool slots; [step] returns the new pool and the call's result.
    New objects are appended at the end of the pool.  Operands may be the receiver itself.
    Definitions only (no proofs): this file is what the correspondence check executes. *)
-From Verif Require Import Base Sorter Value Seq Coll Params.
+From Verif Require Import Base Sorter Value Seq Coll CollP Params.
 Open Scope Z_scope.
 
 Inductive ckind := CArray | CList | CSet | CStack | CQueue | CCatalog | CMap.
@@ -14,6 +14,8 @@ Inductive obj :=
 | OArr (l : list val)
 | OLst (l : list val)
 | OSet (c : nat) (l : list val)         (* c: collator id *)
+| OSetL (m : nat) (l : list val)        (* a Set whose collator is the default order with maximum traversal depth m:
+                                           it panics on values nested deeper (round 3) *)
 | OStk (cap : nat) (l : list val)
 | OQue (cap : nat) (l : list val)
 | OCat (m : list (val * val))
@@ -27,6 +29,9 @@ Inductive ret :=
 | RUnit | RVal (v : val) | RBool (b : bool) | RInt (z : Z) | RNew
 | RPanic | RHang
 | RBad.     (* ill-typed op or inconsistent oracle: never equal to an observation *)
+
+(* the class functions, for calls with a nil operand *)
+Inductive cfun := FConcat | FAnd | FOr | FSans | FXor | FMerge | FExtract.
 
 Inductive op :=
 | NewSlice (l : list val)
@@ -59,7 +64,12 @@ Inductive op :=
 | GetSize (o : nat) | IsEmpty (o : nat)
 | INext (i : nat) | IPrev (i : nat) | IHasNext (i : nat) | IHasPrev (i : nat)
 | IToStart (i : nat) | IToEnd (i : nat) | IToSlot (i : nat) (k : Z)
-| IGetSlot (i : nat) | IGetSize (i : nat) | IIsEmpty (i : nat).
+| IGetSlot (i : nat) | IGetSize (i : nat) | IIsEmpty (i : nat)
+(* round 3 *)
+| MakeSetLim (m : nat)                       (* Set.MakeWithCollator(Collator.MakeWithMaximum(m)) *)
+| SortSlice (s rk : nat)                     (* a sorter INSTANCE with ranker rk sorts the caller's Go array in place *)
+| AssocSet (s i : nat) (v : val)             (* the caller calls SetValue(v) on the association OBJECT at position i of its Go array s *)
+| NilCall (f : cfun) (a : nat) (nil_first : bool).  (* class function f with operand a and a nil interface as the other operand *)
 
 (* ---------- the collators and rankers used by histories ---------- *)
 Definition cmax : nat := Z.to_nat collator_default_maximum.
@@ -119,7 +129,7 @@ Fixpoint reorder (m : list (val * val)) (okeys : list val) : option (list (val *
    Unordered maps use the oracle order. *)
 Definition seq_view (o : obj) (okeys : list val) : option (list val) :=
   match o with
-  | OArr l | OLst l | OSet _ l | OStk _ l | OQue _ l => Some l
+  | OArr l | OLst l | OSet _ l | OSetL _ l | OStk _ l | OQue _ l => Some l
   | OCat m => Some (assoc_vals m)
   | OMap m => option_map assoc_vals (reorder m okeys)
   | _ => None
@@ -129,6 +139,20 @@ Definition seq_plain (o : obj) : option (list val) := seq_view o [].
 Definition get (p : pool) (i : nat) : obj := nth i p ODead.
 Definition put (p : pool) (i : nat) (o : obj) : pool := set_nth i o p.
 Definition push_obj (p : pool) (o : obj) : pool * ret := (p ++ [o], RNew).
+
+(* the ranking of a depth-limited collator: None when the traversal exceeds the maximum (the call panics) *)
+Definition rk_lim (m : nat) (a b : val) : option comparison :=
+  match rank0 m a b with R c => Some c | _ => None end.
+(* a Set operand of a class function: its collator as a ranking that may panic, and its values *)
+Definition set_operand (o : obj) : option ((val -> val -> option comparison) * list val) :=
+  match o with
+  | OSet c l => Some (fun a b => Some (ranker c a b), l)
+  | OSetL m l => Some (rk_lim m, l)
+  | _ => None
+  end.
+(* a new Set with the collator of o *)
+Definition set_like (o : obj) (l : list val) : obj :=
+  match o with OSet c _ => OSet c l | OSetL m _ => OSetL m l | x => x end.
 
 Definition default_stack_cap : nat := Z.to_nat stack_default_capacity.
 Definition default_queue_cap : nat := Z.to_nat queue_default_capacity.
@@ -232,22 +256,38 @@ Definition step (p : pool) (o : op) : pool * ret :=
   | SAnd a b =>
     match get p a, get p b with
     | OSet c1 x, OSet c2 y => of_out (set_and zero (ranker c1) (ranker c2) x y) (fun r => push_obj p (OSet c1 r)) p
-    | _, _ => (p, RBad)
+    | oa, ob =>
+      match set_operand oa, set_operand ob with
+      | Some (r1, x), Some (r2, y) => of_out (set_and_p zero r1 r2 x y) (fun r => push_obj p (set_like oa r)) p
+      | _, _ => (p, RBad)
+      end
     end
   | SOr a b =>
     match get p a, get p b with
     | OSet c1 x, OSet c2 y => of_out (set_or zero (ranker c1) x y) (fun r => push_obj p (OSet c1 r)) p
-    | _, _ => (p, RBad)
+    | oa, ob =>
+      match set_operand oa, set_operand ob with
+      | Some (r1, x), Some (r2, y) => of_out (set_or_p zero r1 x y) (fun r => push_obj p (set_like oa r)) p
+      | _, _ => (p, RBad)
+      end
     end
   | SSans a b =>
     match get p a, get p b with
     | OSet c1 x, OSet c2 y => of_out (set_sans zero (ranker c1) x y) (fun r => push_obj p (OSet c1 r)) p
-    | _, _ => (p, RBad)
+    | oa, ob =>
+      match set_operand oa, set_operand ob with
+      | Some (r1, x), Some (r2, y) => of_out (set_sans_p zero r1 x y) (fun r => push_obj p (set_like oa r)) p
+      | _, _ => (p, RBad)
+      end
     end
   | SXor a b =>
     match get p a, get p b with
     | OSet c1 x, OSet c2 y => of_out (set_xor zero (ranker c1) (ranker c2) x y) (fun r => push_obj p (OSet c1 r)) p
-    | _, _ => (p, RBad)
+    | oa, ob =>
+      match set_operand oa, set_operand ob with
+      | Some (r1, x), Some (r2, y) => of_out (set_xor_p zero r1 r2 x y) (fun r => push_obj p (set_like oa r)) p
+      | _, _ => (p, RBad)
+      end
     end
   | Merge a b =>
     match get p a, get p b with
@@ -266,7 +306,7 @@ Definition step (p : pool) (o : op) : pool * ret :=
     end
   | GetValues o i j =>
     match get p o with
-    | OArr l | OLst l | OSet _ l => of_out (get_values l i j) (fun r => push_obj p (OArr r)) p
+    | OArr l | OLst l | OSet _ l | OSetL _ l => of_out (get_values l i j) (fun r => push_obj p (OArr r)) p
     | _ => (p, RBad)
     end
   | SetValue o i v =>
@@ -314,6 +354,7 @@ Definition step (p : pool) (o : op) : pool * ret :=
     match get p o with
     | OLst _ => (put p o (OLst []), RUnit)
     | OSet c _ => (put p o (OSet c []), RUnit)
+    | OSetL m _ => (put p o (OSetL m []), RUnit)
     | OStk cap _ => (put p o (OStk cap []), RUnit)
     | OQue cap _ => (put p o (OQue cap []), RUnit)
     | OCat _ => (put p o (OCat []), RUnit)
@@ -324,24 +365,28 @@ Definition step (p : pool) (o : op) : pool * ret :=
     match get p o with
     | OLst l => (p, RBool (contains_value eq_default l v))
     | OSet c l => of_out (set_contains zero (ranker c) l v) (fun b => (p, RBool b)) p
+    | OSetL m l => of_out (set_contains_p zero (rk_lim m) l v) (fun b => (p, RBool b)) p
     | _ => (p, RBad)
     end
   | ContainsAny o src =>
     match get p o, seq_plain (get p src) with
     | OLst l, Some s => (p, RBool (contains_any eq_default l s))
     | OSet c l, Some s => of_out (set_contains_any zero (ranker c) l s) (fun b => (p, RBool b)) p
+    | OSetL m l, Some s => of_out (set_contains_any_p zero (rk_lim m) l s) (fun b => (p, RBool b)) p
     | _, _ => (p, RBad)
     end
   | ContainsAll o src =>
     match get p o, seq_plain (get p src) with
     | OLst l, Some s => (p, RBool (contains_all eq_default l s))
     | OSet c l, Some s => of_out (set_contains_all zero (ranker c) l s) (fun b => (p, RBool b)) p
+    | OSetL m l, Some s => of_out (set_contains_all_p zero (rk_lim m) l s) (fun b => (p, RBool b)) p
     | _, _ => (p, RBad)
     end
   | GetIndex o v =>
     match get p o with
     | OLst l => (p, RInt (Z.of_nat (get_index eq_default l v)))
     | OSet c l => of_out (set_get_index zero (ranker c) l v) (fun n => (p, RInt (Z.of_nat n))) p
+    | OSetL m l => of_out (set_get_index_p zero (rk_lim m) l v) (fun n => (p, RInt (Z.of_nat n))) p
     | _ => (p, RBad)
     end
   | SortValues o =>
@@ -381,6 +426,7 @@ Definition step (p : pool) (o : op) : pool * ret :=
   | AddValue o v =>
     match get p o with
     | OSet c l => of_out (set_add zero (ranker c) l v) (fun l' => (put p o (OSet c l'), RUnit)) p
+    | OSetL m l => of_out (set_add_p zero (rk_lim m) l v) (fun l' => (put p o (OSetL m l'), RUnit)) p
     | _ => (p, RBad)
     end
   | AddValues o src =>
@@ -391,6 +437,7 @@ Definition step (p : pool) (o : op) : pool * ret :=
   | DelValue o v =>
     match get p o with
     | OSet c l => of_out (set_remove zero (ranker c) l v) (fun l' => (put p o (OSet c l'), RUnit)) p
+    | OSetL m l => of_out (set_remove_p zero (rk_lim m) l v) (fun l' => (put p o (OSetL m l'), RUnit)) p
     | _ => (p, RBad)
     end
   | DelValues o src =>
@@ -536,6 +583,29 @@ Definition step (p : pool) (o : op) : pool * ret :=
     match get p i with
     | OIter z s k => (p, RBool (length s =? 0)%nat)
     | _ => (p, RBad)
+    end
+  | MakeSetLim m => push_obj p (OSetL m [])
+  | SortSlice s rk =>
+    match get p s with
+    | OSlice l => (put p s (OSlice (sort_values (ranker rk) l)), RUnit)
+    | _ => (p, RBad)
+    end
+  | AssocSet s i v =>
+    match get p s with
+    | OSlice l =>
+      match nth_error l i with
+      | Some (VAssoc k _) => (put p s (OSlice (set_nth i (VAssoc k v) l)), RUnit)
+      | _ => (p, RBad)
+      end
+    | _ => (p, RBad)
+    end
+  | NilCall f a nil_first =>
+    (* every class function calls a method of the nil operand and panics, except And(first, nil) with an
+       EMPTY first operand: its loop never reaches second.ContainsValue and it returns a new empty Set *)
+    match f, nil_first, get p a with
+    | FAnd, false, OSet c [] => push_obj p (OSet c [])
+    | FAnd, false, OSetL m [] => push_obj p (OSetL m [])
+    | _, _, _ => (p, RPanic)
     end
   end.
 
